@@ -6,7 +6,7 @@ d=/var/tmp/cached-vk/dev${KDEV_SLOT:-}
 cd /verif && VK_STAGE_DIR=$d python3 - <<PY
 import sys, json; sys.path.insert(0,'/verif/bin')
 from vklib import stage
-consts={"TIER_THOROUGH":False,"SEED":0}
+consts={"TIER_THOROUGH":False,"SEED":0,"LOCK_EDGES":False}
 for f in json.load(open('/verif/known-findings.json'))["findings"]:
     consts["KF_"+f["id"].upper()] = (f["status"]=="known")
 stage.stage("dev", consts)
